@@ -1,5 +1,7 @@
 package main
 
 import (
+	_ "github.com/bufbuild/bufverif/checks/c13"
+	_ "github.com/bufbuild/bufverif/checks/c14"
 	_ "github.com/bufbuild/bufverif/checks/c15"
 )
